@@ -176,6 +176,19 @@ Definition resolveH (h : Z) : MW ent := s <- get ;; of_opt (handle s h) EMisuse.
 Definition resolveR (rels : list hrel) : MW (list rel) :=
   mapM rels (fun r => e <- resolveH (snd r) ;; ret (fst r, e)).
 
+(** A relation given by INDEX (ecs.RelIdx) instead of by component ID is encoded by a component code >= 1000
+    (index = code - 1000). The script-level queries are UnsafeFilter.Query, which rejects it (relationIDForUnsafe
+    panics), and Filter0.Query, which resolves it against the components added with With (ids[index], an index
+    out of range panics). Both happen while the relations are converted, BEFORE a lock bit is taken and before a
+    query object exists. *)
+Definition no_relidx (rels : list rel) : bool := forallb (fun r : rel => Nat.ltb (fst r) 1000) rels.
+Definition resolve_relidx (fi : nat) (rels : list rel) : MW (list rel) :=
+  if no_relidx rels then ret rels else
+  f <- getF fi ;;
+  if f_unsafe f then fail EMisuse else
+  mapM rels (fun r => if Nat.ltb (fst r) 1000 then ret r
+                      else c <- of_opt (nth_error (f_ids f) (fst r - 1000)) EIndex ;; ret (c, snd r)).
+
 Definition issue (e : ent) : MW unit := modify (fun s => s <| w_issued ::= fun l => l ++ [e] |>).
 
 (** Entities reported by batch callbacks (log entries tagged 101). *)
@@ -307,6 +320,7 @@ Definition step_op (debug : bool) (o : op) : MW (list Z) :=
   | OFilterUnregister f => filter_unregister f ;;; ret []
   | OQueryAll f hrels =>
       rels <- resolveR hrels ;;
+      rels <- resolve_relidx f rels ;;
       qi <- query_open f rels ;;
       cnt <- query_count qi ;;
       es <- (fix go (fuel : nat) (acc : list ent) : MW (list ent) :=
@@ -321,6 +335,7 @@ Definition step_op (debug : bool) (o : op) : MW (list Z) :=
       ret (Zn cnt :: Zn (length es) :: flat_map Zent es)
   | OQueryOpen f hrels =>
       rels <- resolveR hrels ;;
+      rels <- resolve_relidx f rels ;;
       qi <- query_open f rels ;; ret [Zn qi]
   | OQueryNext q => b <- query_next debug q ;; ret [Zb b]
   | OQueryClose q => query_close q ;;; ret []
